@@ -454,6 +454,24 @@ theorem C20_revision_order_irrelevant (a b : List Nat) (h : a.Perm b) : moduleRe
     congr 1
     omega
 
+/-- **C20_later_edition_newer**: an edition that carries the clauses of an earlier edition (in any order, anywhere) and one
+clause later than all of them has exactly that clause as its revision - it is the newer of the two for `mibcopy`, however it
+writes its history. -/
+theorem C20_later_edition_newer (old new : List Nat) (r : Nat) (hp : new.Perm (r :: old)) (hr : ∀ x ∈ old, x < r) :
+    moduleRevision new = some r ∧ ∀ m, moduleRevision old = some m → m < r := by
+  constructor
+  · rw [C20_revision_order_irrelevant new (r :: old) hp]
+    obtain ⟨m, hm⟩ := (C20_revision_latest (r :: old)).2.2 (by simp)
+    obtain ⟨hmem, hge⟩ := (C20_revision_latest (r :: old)).2.1 m hm
+    rw [hm]
+    congr 1
+    have h1 : r ≤ m := hge r (by simp)
+    rcases List.mem_cons.mp hmem with h | h
+    · exact h
+    · have := hr m h; omega
+  · intro m hm
+    exact hr m ((C20_revision_latest old).2.1 m hm).1
+
 /-- an edition that lists its history oldest first is as new as its last clause -/
 example : moduleRevision [200001010000, 201001010000] = some 201001010000 := by decide
 example : moduleRevision [201001010000, 200001010000] = some 201001010000 := by decide
